@@ -5,6 +5,7 @@ import (
 	"go/constant"
 	"go/token"
 	"go/types"
+	"net/http"
 	"strings"
 
 	"golang.org/x/tools/go/ssa"
@@ -86,7 +87,7 @@ func runC10(c *Ctx) {
 	wr := c.need(p, "C10.S", "agent/sessions.(*sessionResponseWriter).Write")
 
 	// ---- C10.S
-	c.Rule("C10.S", "backend Set-Cookie never passes the session writer", 5)
+	c.Rule("C10.S", "backend Set-Cookie never passes the session writer, neither as a header field nor as a trailer", 7)
 	c.Rule("C10.B", "no route around the session handler; no response replayed across requests", 3)
 	c.Rule("C10.H", "what the forwarder publishes is what the session writer released: header copies in the streaming writer are guarded copies of the final header (= C03.H); the shim's handshake uses the header of the request the session handler restored (= C09.N); nothing rewrites the request's fields before the session handler (= C02.W)", 15)
 	c.Borrow(runC03, "C03.H", "C10.H", func(k string) bool { return strings.Contains(k, "streamingResponseWriter).WriteHeader") })
@@ -265,6 +266,9 @@ func runC10(c *Ctx) {
 			}
 			switch n := objName(ms.At(i).Obj()); n {
 			case "Header", "Write", "WriteHeader":
+			case "dropTrailerCookies":
+				// F15: unexported, called by the session handler after the wrapped handler returned;
+				// it only deletes Set-Cookie fields (judged by serve:trailer-cookie-dropped)
 			default:
 				extra += " " + n
 			}
@@ -374,7 +378,7 @@ func runC10(c *Ctx) {
 	}
 
 	// ---- C10.R
-	c.Rule("C10.R", "the session cookie never reaches the backend; jars and cookie URL are the caller's own", 20)
+	c.Rule("C10.R", "the session cookie never reaches the backend; jars and cookie URL are the caller's own", 21)
 	if rs := c.need(p, "C10.R", "agent/sessions.(*sessionHandler).restoreSession"); rs != nil {
 		del := []ssa.Instruction{}
 		for _, call := range Calls(rs, "(net/http.Header).Del") {
@@ -469,6 +473,9 @@ func runC10(c *Ctx) {
 				c.Unk("C10.R", "serve:writer-session", p, sh.Pos(), "expected one sessionResponseWriter literal")
 			}
 		}
+		// once the wrapped handler has returned, Set-Cookie fields it left in the header map after
+		// the header was written — trailers, declared or prefixed — are dropped (F15)
+		ruleTrailerCookiesDropped(c, p, sh)
 		// cookie URL: copy of *r.URL with Scheme const and Host = r.Host
 		var urlAlloc *ssa.Alloc
 		for _, a := range AllocsOf(sh, "net/url.URL") {
@@ -490,6 +497,23 @@ func runC10(c *Ctx) {
 				s, isC := ConstString(v)
 				okScheme = isC && (s == "https" || s == "http")
 			}
+			// … and nothing else of the copy is rewritten: the path decides which path-scoped cookies
+			// match and what the default path of a new cookie is (path.Clean drops a trailing slash)
+			other := ""
+			for _, r := range Refs(urlAlloc) {
+				if fa, isFA := r.(*ssa.FieldAddr); isFA {
+					f := fieldName(fa.X.Type(), fa.Field)
+					if f == "Scheme" || f == "Host" {
+						continue
+					}
+					for _, u := range Refs(fa) {
+						if st, isSt := u.(*ssa.Store); isSt && st.Addr == ssa.Value(fa) {
+							other = f + " at " + p.Pos(st.Pos())
+						}
+					}
+				}
+			}
+			c.Check("C10.R", "serve:cookie-url-keeps-the-request-path", p, urlAlloc.Pos(), other == "", "only Scheme and Host of the copied request URL are set", "the cookie URL's "+other+" is rewritten: the jar is asked and filled under a path other than the requested one — a normalisation such as path.Clean turns /app/ into /app, so cookies scoped to /app/ are not restored for it and a Path-less cookie set there gets the wrong default path")
 			c.Check("C10.R", "serve:cookie-url", p, urlAlloc.Pos(), okInit && okHost && okScheme, "cookie URL = copy of the request's own URL with its own Host and a constant scheme", fmt.Sprintf("cookie URL is not built from the request's own URL/Host (copy of r.URL: %v, Host=r.Host: %v, constant scheme: %v)", okInit, okHost, okScheme))
 		}
 	}
@@ -698,4 +722,56 @@ func cacheField(fn *ssa.Function, field string) string {
 		return P(fn, 0) + "." + field
 	}
 	return P(fn, 0) + ".c." + field
+}
+
+// ruleTrailerCookiesDropped (C10.S, F15): a backend cookie set after the response header was
+// written would travel as a trailer (`Trailer: Set-Cookie` declared, or under
+// http.TrailerPrefix) past the interception in WriteHeader. Every path from the call of the
+// wrapped handler to a return of the session handler deletes both spellings from the writer's
+// header map (the plain one at least when the header was written) — directly or in a module
+// function called there.
+func ruleTrailerCookiesDropped(c *Ctx, p *Prog, sh *ssa.Function) {
+	serve := c.UniqueCall("C10.S", p, sh, false, "(net/http.Handler).ServeHTTP")
+	if serve == nil {
+		return
+	}
+	delOf := func(i ssa.Instruction, key string) bool {
+		cc := CallOf(i)
+		if cc == nil || CalleeName(cc) != "(net/http.Header).Del" {
+			return false
+		}
+		k, isC := ConstString(PArgs(cc)[1])
+		return isC && strings.EqualFold(k, key)
+	}
+	latch := func(v ssa.Value) (constant.Value, bool) {
+		if _, f, ok := FieldLoad(v); ok && f == "wroteHeader" {
+			return constant.MakeBool(true), true
+		}
+		return nil, false
+	}
+	var drops func(i ssa.Instruction, key string, depth int) bool
+	drops = func(i ssa.Instruction, key string, depth int) bool {
+		if delOf(i, key) {
+			return true
+		}
+		cc := CallOf(i)
+		if cc == nil || depth > 2 {
+			return false
+		}
+		g := StaticFunc(cc)
+		if g == nil || !p.IsModFunc(g) || len(g.Blocks) == 0 {
+			return false
+		}
+		hit, _ := (&Walk{Target: IsReturn, Avoid: func(j ssa.Instruction) bool { return drops(j, key, depth+1) }, Edge: EdgeUnder(latch), Local: true}).FromBlock(g.Blocks[0])
+		return hit == nil
+	}
+	for _, key := range []string{http.TrailerPrefix + "Set-Cookie", "Set-Cookie"} {
+		k := key
+		hit, _ := (&Walk{Target: func(i ssa.Instruction) bool { return IsReturn(i) && i.Parent() == sh }, Avoid: func(j ssa.Instruction) bool { return drops(j, k, 0) }, Edge: EdgeUnder(latch)}).FromInstr(serve)
+		where := ""
+		if hit != nil {
+			where = " (return at " + p.Pos(hit.Pos()) + ")"
+		}
+		c.Check("C10.S", "serve:trailer-cookie-dropped:"+k, p, serve.Pos(), hit == nil, "after the wrapped handler returned, "+k+" is deleted from the writer's header map on every path (with the header written)", "the session handler can return without deleting "+k+" from the header map"+where+": a cookie the backend sets after its header was written is relayed to the client as a trailer, past the session")
+	}
 }
